@@ -163,6 +163,8 @@ int weight(int kind) {
     case K_QS_LOAD: case K_QS_RMW: case K_QO_LOAD: case K_QO_RMW: case K_QO_LINK: return 4;
     case K_MUTEX_LOCK: case K_MUTEX_UNLOCK: return 3;
     case K_FAKE_LOAD: case K_FAKE_STORE: return 1;
+    case K_AUTO_LOAD: return 1;
+    case K_AUTO_STORE: case K_AUTO_RMW: return 2;
     case K_HARNESS: return 3;
     default: return 1;
   }
@@ -664,8 +666,8 @@ void run_end(Result& r) {
     auto& conflicts = g.conflicts[o];
     conflicts.clear();
     g.conflicts_program[o] = static_cast<uint64_t>(g.c ? g.c->knob("program_seed", -1) : -1);
-    auto is_write = [](int k) { return k == K_LOCK_CAS || k == K_LOCK_STORE || k == K_FIELD_STORE || k == K_QS_RMW || k == K_QO_RMW || k == K_QO_LINK || k == K_FAKE_STORE; };
-    auto is_victim = [](int k) { return k == K_LOCK_LOAD || k == K_FIELD_LOAD || k == K_QS_LOAD || k == K_QO_LOAD || k == K_FAKE_LOAD || k == K_LOCK_CAS || k == K_QS_RMW || k == K_QO_RMW; };
+    auto is_write = [](int k) { return k == K_LOCK_CAS || k == K_LOCK_STORE || k == K_FIELD_STORE || k == K_QS_RMW || k == K_QO_RMW || k == K_QO_LINK || k == K_FAKE_STORE || k == K_AUTO_STORE || k == K_AUTO_RMW; };
+    auto is_victim = [](int k) { return k == K_LOCK_LOAD || k == K_FIELD_LOAD || k == K_QS_LOAD || k == K_QO_LOAD || k == K_FAKE_LOAD || k == K_LOCK_CAS || k == K_QS_RMW || k == K_QO_RMW || k == K_AUTO_LOAD || k == K_AUTO_RMW; };
     std::map<std::pair<uint64_t, uint64_t>, std::vector<int>> writers;  // location -> threads that write it
     for (auto& a : g.accesses)
       if (is_write(a.kind)) { auto& v = writers[{a.obj, a.off}]; if (std::find(v.begin(), v.end(), a.thread) == v.end()) v.push_back(a.thread); }
